@@ -313,7 +313,7 @@ def check_capture(where, snap, inv, probs):
                           '%s: the invocation returned %s but the capture reports %r (%s)' % (
                               where, short(value, 60), w.expression, ent.type)))
             return
-        p = snapcheck.value_problem(value, ent, 1024)
+        p = snapcheck.value_problem(value, ent, snapcheck.default_limits()['max_str'])
         if p:
             mech = 'deferred:recursion-inner-result' if inv.depth is not None and ent.type == type(value).__name__ \
                 else 'deferred:capture-wrong-value'
